@@ -735,6 +735,8 @@ fn run_epoch(s: &mut Sess, src: &mut dyn OpSource, closing: bool) {
     s.dev.begin_call();
     s.clock.begin_call();
     s.counters.api_calls += 1;
+    let dev2 = s.dev.handle();
+    let journal_on = s.cfg.journal;
     let r = catch_unwind(AssertUnwindSafe(|| match how {
         0 => fs.unmount().map_err(|e| classify_err(&e)),
         1 => {
@@ -742,7 +744,15 @@ fn run_epoch(s: &mut Sess, src: &mut dyn OpSource, closing: bool) {
             Ok(())
         }
         _ => {
-            std::mem::forget(fs);
+            // abandoned session: the file system object is destroyed without leaking it, but whatever its
+            // destructor writes is discarded - the storage keeps the bytes it had at the moment of abandonment
+            let snap = dev2.snapshot();
+            let counted = dev2.0.borrow().n_writes;
+            dev2.set_logging(false, false);
+            drop(fs);
+            dev2.with_img_mut(|im| *im = snap);
+            dev2.0.borrow_mut().n_writes = counted;
+            dev2.set_logging(true, journal_on);
             Ok(())
         }
     }));
